@@ -119,6 +119,18 @@ Theorem c05_float_expr_denotes_rational : forall n d, 0 < d -> const_float_ratio
 Proof. exact float_expr_denotes_rational. Qed.
 Print Assumptions c05_float_expr_denotes_rational.
 
+(* finding F-FLOAT-LIT-RANGE: an operand of the expression can be a floating constant outside the range of double (witness: DBL_MIN
+   written in decimal); outside that trigger both operands are in range *)
+Theorem c05_float_operands_in_range_refuted : exists n d,
+  0 < d /\ d <= n * 2 ^ 1022 /\ n < d /\ const_float_rational n d = Some (n, d) /\ const_float_operands_in_range n d = false.
+Proof. exact float_operands_in_range_refuted. Qed.
+Print Assumptions c05_float_operands_in_range_refuted.
+
+Theorem c05_float_operands_in_range_partial : forall n d, 0 < d -> float_lit_overflows n d = false ->
+  const_float_rational n d = Some (n, d) /\ const_float_operands_in_range n d = true.
+Proof. exact float_operands_in_range_partial. Qed.
+Print Assumptions c05_float_operands_in_range_partial.
+
 (* non-vacuity *)
 Definition ex05_inner : ty := TComp false [TPrim (PU 3 true); TVar (TPrim (PS 13 true)) 300] (Some 4912%nat).
 Definition ex05_outer : ty := TComp true [TPrim (PF 16 true); ex05_inner; TFix (TPrim PBool) 9] None.
